@@ -1,22 +1,22 @@
 CONSTANTS
   w1 = w1
   w2 = w2
-  Wakers = {w1,w2}
-  Target <- TgtD
-  Tasks = {"t1"}
+  Wakers = {}
+  Target <- TgtNone
+  Tasks = {}
   QCap = 1
   Mode = "external"
-  Driver = "poll"
+  Driver = "iour"
   Eager = FALSE
   ArmInFlush = TRUE
   WakeAfterPush = TRUE
   Overflow = FALSE
   Hosts <- BothHosts
-  Muts = {"none"}
+  Muts = {"old"}
   Ops = {"o1"}
   Timers = {}
-  Jobs = {}
-  Owner <- OwnD
+  Jobs = {"j1"}
+  Owner <- OwnQO
   AnyTurn = TRUE
 SPECIFICATION XSpec
-INVARIANTS XTypeOK PendingBound TypeOK RealSafe
+INVARIANTS XTypeOK PendingBound TypeOK CtlOld
